@@ -1,4 +1,4 @@
-"""C01 -- rename preserves the program (structural clauses R01.1-R01.21)."""
+"""C01 -- rename preserves the program (structural clauses R01.1-R01.24)."""
 from __future__ import annotations
 
 import ast
@@ -24,6 +24,8 @@ EXPLANATION += ' R01.17 (=R02.22=R06.14): a line attribute and a column attribut
 EXPLANATION += " R01.14: identifier characters are the interpreter's (worder.is_identifier_char; no home-made isalnum test; no \\b next to the name).  R01.15 (=R15.17): a `:=` target in a comprehension binds in the containing scope.  R01.16 (=R02.21): names in decorators, defaults, annotations and bases are evaluated in the parent scope."
 EXPLANATION += ' R01.13: a `col_offset`/`end_col_offset` of an AST node (UTF-8 bytes) reaches a character offset only through codeanalyze.column_to_offset; it is otherwise only compared, or is the start column of a node tested to be a statement.'
 EXPLANATION += " R01.19: in the anchored modules and the shared text utilities no source text is cut with str.splitlines() (it breaks at form feed, \x1c-\x1e, \x85, U+2028/9; rope's and the ast's line numbers count \n only)."
+EXPLANATION += " R01.22: inside the loop over the files of a refactoring no handler swallows an error (a file is never silently left out of a multi-file change)."
+EXPLANATION += " R01.23: Rename adds the move of a module's file only under a test that the renamed word is the module's own name.  R01.24: no strip / lstrip / rstrip call in rope has an argument that spells an affix (`.py`)."
 ASSUMPTIONS = ["scope classes are the subclasses of rope.base.pyscopes.Scope found in the working tree"]
 
 SCOPE = "rope.base.pyscopes.Scope"
@@ -132,6 +134,10 @@ def check(ctx, res) -> None:
     decorators_above_the_statement_rule(ctx, res, "R01.20")
     from .c09 import module_without_file_rule
     module_without_file_rule(ctx, res, "R01.21")
+    _file_follows_its_own_name_only_rule(ctx, res)
+    from .common import affix_strip_rule
+
+    affix_strip_rule(ctx, res, "R01.24")
     from .common import position_pair_rule
 
     position_pair_rule(ctx, res, "R01.17", ("rope.refactor.occurrences", "rope.refactor.functionutils", "rope.base.evaluate", "rope.refactor.patchedast", "rope.base.codeanalyze"))
@@ -139,6 +145,9 @@ def check(ctx, res) -> None:
     from .common import line_model_rule as _lm
 
     _lm(ctx, res, "R01.19", ('rope.refactor.rename', 'rope.refactor.occurrences', 'rope.base.evaluate', 'rope.base.pyscopes', 'rope.base.pyobjectsdef', 'rope.base.worder', 'rope.base.codeanalyze'))
+    from .common import per_file_no_skip_rule as _pf
+
+    _pf(ctx, res, "R01.22", ('rope.refactor.rename',))
 
 
 def call_keyword_rule(ctx, res, rule: str) -> None:
@@ -296,3 +305,35 @@ def change_collector_rule(ctx, res, rule: str) -> None:
             "each piece is original[watermark:start] + replacement, the watermark advances to the edit's end, and the tail is kept" if ok else
             "ChangeCollector.get_changed does not assemble original[watermark:start] + replacement with watermark = end and the trailing "
             "original[watermark:]: untouched text between or after the edits is lost or duplicated")
+
+
+def _file_follows_its_own_name_only_rule(ctx, res) -> None:
+    """R01.23: Rename moves a module's FILE when the word that is renamed is the module's own name (`import mod` ... `mod`).  A name that is
+    merely bound to the module -- the alias of `import mod as m`, the variable of `m = mod` -- is an ordinary name: renaming it
+    rewrites its occurrences and leaves the file alone.  The call that adds the file move therefore stands under a test that
+    compares the renamed word (`self.old_name`) with the module's name, not only under "the object is a module"."""
+    from . import common
+    idx = ctx.idx
+    f = idx.need_func("rope.refactor.rename.Rename.get_changes")
+    node = common.inlined(idx, f)
+    cfg = CFG(node)
+    n = 0
+    for nd in cfg.nodes:
+        if nd.ast is None or nd.kind not in ("stmt", "test") or not any(call_name(c) in ("_rename_module", "MoveResource") for c in calls_in(nd.ast)):
+            continue
+        n += 1
+        gs = common.plain_guards(cfg, nd.id)
+        def compares_the_word(t) -> bool:
+            texts = [t] + (common.flag_sources(cfg, node, t.id) if isinstance(t, ast.Name) else [])
+            for c in ast.walk(t):  # the predicate may be a method of the class with several statements: read its body
+                if isinstance(c, ast.Call) and is_self_attr(c.func) and f.cls is not None:
+                    m = idx.find_method(f.cls.qualname, c.func.attr)
+                    if m is not None:
+                        texts.append(m.node)
+            return any(isinstance(x, ast.Compare) and any(is_self_attr(y, "old_name") for y in ast.walk(x)) for tt in texts for x in ast.walk(tt))
+        by_name = any(pol and compares_the_word(t) for t, pol in gs)
+        res.add("R01.23", f"Rename.get_changes|file-moved-for-the-modules-own-name-only#{n}", by_name, f"{f.unit.rel}:{nd.lineno}",
+                "the file is moved only under a test that the renamed word is the module's own name" if by_name else
+                "the module's file is moved whenever the renamed name is BOUND to a module: Rename of the alias in `import mod as m` (or of `alias` in `alias = mod`) moves mod.py to the "
+                "new name while `import mod` stays -- the program ends in ModuleNotFoundError", function=f.qualname)
+    res.floor("R01.23", "places where Rename adds the move of the module's file", n, 1)
